@@ -1,6 +1,6 @@
 (* C14 — --force runs every selected task regardless of the cache, and does not damage the cache.
    Statements + `exact` + Print Assumptions only. *)
-From Spok Require Import Base RunCache RunCacheProofs RunCacheInst.
+From Spok Require Import Base Graph RunCache RunCacheProofs RunCacheInst App AppProofs.
 
 Section C14.
 Variable D : Type.
@@ -23,6 +23,14 @@ End C14.
 Print Assumptions C14_force.
 Print Assumptions C14_cache_intact.
 
+(* at the level of a whole `spok --force ...` invocation - tasks named on the command line, the default task when none is
+   named, or --clean with a task named clean: the report has no skipped task and every reported task was executed *)
+Theorem C14_invocation : forall pick defs vars s f req s' ob rs,
+  invoke pick defs vars s f req = (s', ob) -> f_force f = true -> ob_stdout ob = SDJson rs ->
+  (forall r, In r rs -> tr_skipped r = false) /\ ob_executed ob = map tr_name rs.
+Proof. exact forced_invocation. Qed.
+Print Assumptions C14_invocation.
+
 Definition ta := {| tname := 0; lits := [0]; globs := [] |}.
 Definition all_ok : name -> beh := fun _ => BSucc.
 (* run a; forced run a on an edited file; revert; unforced run: NOT skipped (the forced success is what counts) *)
@@ -32,3 +40,16 @@ Example C14_nonvacuous :
   /\ rr_out DI (run_i true all_ok (apply_op_i s (RunOp false all_ok [ta])) [ta]) = RunOk [{| r_task := 0; r_skipped := false |}].
 Proof. split; vm_compute; reflexivity. Qed.
 Print Assumptions C14_nonvacuous.
+
+(* `spok --force --json` with no task name and a task named default (3) that is up to date: it runs *)
+Definition okc := {| c_cmd := [101%N]; c_out := []; c_err := []; c_status := 0 |}.
+Definition defs14 := [ {| td_name := 3; td_deps := []; td_lits := [0]; td_globs := []; td_cmds := [okc] |} ].
+Definition fl (force : bool) := {| f_quiet := false; f_json := true; f_force := force; f_show := false; f_vars := false; f_clean := false |}.
+Example C14_default_task_forced :
+  let s0 := apply_op_i (init_i (fun _ => None)) (Edit 0 (Some 1)) in
+  let '(s1, o1) := invoke (fun _ l => l) defs14 [] s0 (fl false) [] in
+  let '(s2, o2) := invoke (fun _ l => l) defs14 [] s1 (fl false) [] in
+  let '(_, o3) := invoke (fun _ l => l) defs14 [] s2 (fl true) [] in
+  ob_executed o1 = [3] /\ ob_executed o2 = [] /\ ob_executed o3 = [3].
+Proof. vm_compute. repeat split; reflexivity. Qed.
+Print Assumptions C14_default_task_forced.
